@@ -44,7 +44,9 @@ def main():
                 print('%s %s: signature %s not reproduced on the pre-fix tree' % (pid, commit, sig))
                 continue
             os.makedirs(os.path.dirname(dst), exist_ok=True)
-            shutil.copy(found, dst)
+            found = found if os.path.isabs(found) else os.path.join(VERIF, found)
+            if os.path.abspath(found) != os.path.abspath(dst):
+                shutil.copy(found, dst)
             r1 = run([os.path.join(VERIF, 'check'), pid, '--replay', dst], env=dict(os.environ, VERIF_REPO=tree))
             r2 = run([os.path.join(VERIF, 'check'), pid, '--replay', dst])
             print('%s %s -> %s : pre-fix %s, current tree %s' % (pid, commit, k['replay'], 'FAILS' if r1.returncode else 'passes(!)', 'passes' if r2.returncode == 0 else 'FAILS(!)'))
